@@ -190,7 +190,8 @@ def run_rules(pid, tier, seed, fams, per_family_quick, level_rule, assumptions, 
         trans += r.generated
         if pid == "C09":      # the complex convention: only configurations with a complex operand or a complex result
             allc = [c for c in allc if c["kind"] != "rr" or fam == "fft"]
-        chosen = stratified(allc, per_family_quick if quick else None, rng)
+        pfq = per_family_quick.get(fam, per_family_quick.get("*")) if isinstance(per_family_quick, dict) else per_family_quick
+        chosen = stratified(allc, pfq if quick else None, rng)
         if quick:
             chosen = [dict(c, dk=seed % 7) for c in chosen]
         else:      # thorough: every configuration at two different generic points
@@ -380,7 +381,7 @@ SECOND_FAMILIES = {k: v for k, v in FAMILIES.items() if k not in ("kink",)}
 
 
 def c07_second(tier, seed):
-    return run_rules("C07", tier, seed, SECOND_FAMILIES, 120, RULE, ASSUME, write=False)
+    return run_rules("C07", tier, seed, SECOND_FAMILIES, {"linalg": 450, "*": 120}, RULE, ASSUME, write=False)
 
 
 INDEX_FAMILY = {"index": (2, 3, ["rr"]), "mixorder": (2, 2, ["rr"])}
